@@ -190,6 +190,7 @@ def make_ctx(w):
 
 
 CONSTRUCTORS_ALL = [(w, gs, fm) for w in (8, 16, 32, 64) for gs in (1, 0) for fm in (0, 1, 3, 1 << 63)]
+THOROUGH_DEEP = ((64, 1, 0), (32, 1, 3), (8, 1, 0), (16, 1, 3), (64, 0, 0), (64, 0, 3))
 CONSTRUCTORS_QUICK = [(64, 1, 0), (32, 1, 3), (8, 1, 0), (16, 0, 3), (64, 0, 0), (64, 1, 1 << 63), (32, 1, 1)]
 
 
@@ -261,9 +262,9 @@ def worker(spec_path):
         for (w, gs, fm) in [tuple(c) for c in spec['constructors']]:
             A = alphabet(w, spec['tier'])
             ctx = make_ctx(w)
-            # depth >= 3: quick - two constructors; thorough - the default and the 3-word flat window at every width in garbage-stop mode, and at
-            # w=64 in continue mode (all 32 constructors at depth 3-4 are 9.6 million sanitizer sequences: it did not finish in 90 minutes)
-            deep = ((spec['tier'] == 'thorough' and fm in (0, 3) and (gs == 1 or w == 64)) or (w, gs, fm) in ((64, 1, 0), (32, 1, 3))) and not spec.get('shallow')
+            # depth >= 3: quick - two constructors; thorough - six (all 32 constructors at depth 3-4 are 9.6 million sanitizer sequences: it did
+            # not finish in 90 minutes, ten constructors not in 60 on a loaded machine)
+            deep = ((spec['tier'] == 'thorough' and (w, gs, fm) in THOROUGH_DEEP) or (w, gs, fm) in ((64, 1, 0), (32, 1, 3))) and not spec.get('shallow')
             for si, seq in enumerate(sequences(spec['tier'], w, deep)):
                 if si % spec['nparts'] != spec['part']:
                     continue
